@@ -263,7 +263,9 @@ def coq_compare(name, header, runner, cases, shard=400, jobs=8):
             fh.write("Definition eqlz (a b : list Z) : bool := if list_eq_dec Z.eq_dec a b then true else false.\n")
             fh.write("Fixpoint bad {I} (run : I -> list Z) (n : nat) (cs : list (I * list Z)) : list nat :=\n"
                      "  match cs with [] => [] | (i, e) :: r => if eqlz (run i) e then bad run (S n) r else n :: bad run (S n) r end.\n")
-            fh.write("Definition cases := [\n")
+            # the element type is read off the runner, so empty list literals inside a case need no annotation
+            fh.write("Definition dom_of {I O} (f : I -> O) : Type := I.\n")
+            fh.write("Definition cases : list (dom_of %s * list Z) := [\n" % runner)
             fh.write(";\n".join("(%s, %s)" % (i, clist(e)) for i, e in sc))
             fh.write("].\n")
             fh.write("Eval vm_compute in bad %s 0%%nat cases.\n" % runner)
